@@ -63,7 +63,8 @@ def verify_merge(kind, depth, width, mc, nr, a_tab, b_tab, nar_a, nar_b, label):
     B.n_added_records[:] = np.asarray(nar_b, np.uint64)
     b_before = (np.array(B.cms, copy=True), np.array(B.n_added_records, copy=True))
     _rotate_threads(int(a_tab.reshape(-1)[:64].astype(np.int64).sum() + 3 * b_tab.reshape(-1)[:64].astype(np.int64).sum() + depth + width))  # the merge kernels are parallel: the result must not depend on the enabled thread count
-    sut(A.merge, B)
+    with np.errstate(all="raise" if (depth + width + int(a_tab.reshape(-1)[0])) % 2 else "warn"):  # user-set numpy error state
+        sut(A.merge, B)
     if not (np.array_equal(B.cms, b_before[0]) and np.array_equal(B.n_added_records, b_before[1])):
         return 0, 0, f"{label}: merge modified the argument sketch", "merge-mutates-other"
     if int(A.n_added()) != (int(nar_a[0]) + int(nar_b[0])) % 2**64 or int(A.n_records()) != (int(nar_a[1]) + int(nar_b[1])) % 2**64:
